@@ -158,7 +158,7 @@ func main() {
 		"PEM, garbage, future, duplicate and conflicting files; non-trivial = history with at least one fetch, every load case"
 	rng := vgen.NewRand(run.Seed)
 
-	nh := run.Count(150, 4000)
+	nh := run.Count(220, 4000)
 	for i := 0; i < nh; i++ {
 		histCase(run, rng.Fork(uint64(i)))
 	}
